@@ -54,7 +54,12 @@ def _observable(key):
     return _OBS[key]
 
 
-INPUT_KINDS = ["bytes", "bytes", "bytearray", "memoryview", "bytes", "memoryview-signed", "memoryview-char", "memoryview-ctypes", "bytes"]
+# the buffer kinds deliveries rotate through: buffers of UNSIGNED octets (what sockets, ssl objects and recv_into hand out).  memoryviews of
+# signed-char / char / ctypes items are accepted by the unchanged library too (it reads octets with struct), but a refactor that indexes the view
+# (`view[0]`) instead is behaviour-preserving for every ordinary caller and is in the false-alarm corpus (harmless/asn1): those kinds are outside
+# the domain the checks judge (DESIGN.md, "buffer kinds"); `EXOTIC_KINDS` are only observed (C07 histogram)
+INPUT_KINDS = ["bytes", "bytes", "bytearray", "memoryview", "bytes", "memoryview-bytearray", "bytes"]
+EXOTIC_KINDS = ["memoryview-signed", "memoryview-char", "memoryview-ctypes"]
 
 
 def input_object(b: bytes, kind: str):
@@ -64,6 +69,8 @@ def input_object(b: bytes, kind: str):
         return bytearray(b)
     if kind == "memoryview":
         return memoryview(bytes(b))
+    if kind == "memoryview-bytearray":
+        return memoryview(bytearray(b))
     if kind == "memoryview-signed":
         import array
         a = array.array("b", bytes(len(b)))
